@@ -9,6 +9,9 @@ Definition used (property C11):
 with, for an aggregate of two-level molecules whose one-exciton block of the Hamiltonian is H,
     H c_alpha = w_alpha c_alpha,     d_alpha = sum_k c_{k alpha} d_k,
     C_alpha(t) = sum_k c_{k alpha}^4 C_k(t)              (independent site baths)
+    C_alpha(t) = sum_{k,l} c_{k alpha}^2 c_{l alpha}^2 C_kl(t)   (general: correlated site baths,
+                 C_kl = energy-gap cross-correlation function of sites k and l; the FULL
+                 square k,l = 1..n is summed, every off-diagonal pair in both orders)
     g_alpha(t) = int_0^t ds int_0^s ds' C_alpha(s')
 and, when a relaxation tensor R (site basis) is supplied, the additional population-relaxation
 factor exp(R_{alpha alpha alpha alpha} t) of the exciton level (R transformed with the same c;
@@ -86,11 +89,31 @@ def exciton_relaxation_rates(c, rsite):
     return numpy.array(cols).T if r.ndim == 5 else numpy.array(cols)
 
 
+def exciton_correlation_function(t, c_alpha, site_cfs=None, site_cf_matrix=None):
+    """C_alpha(t_n) of one exciton level with site amplitudes c_alpha[k].
+
+    site_cfs: list of C_k(t_n) (independent baths)   -> sum_k c_k^4 C_k
+    site_cf_matrix: n x n nested list of C_kl(t_n)   -> sum_{k,l} c_k^2 c_l^2 C_kl"""
+    n = len(c_alpha)
+    ca = numpy.zeros(len(t), dtype=complex)
+    if site_cf_matrix is not None:
+        for k in range(n):
+            for l in range(n):
+                ca = ca + (c_alpha[k] ** 2) * (c_alpha[l] ** 2) * \
+                    numpy.asarray(site_cf_matrix[k][l], dtype=complex)
+        return ca
+    for k in range(n):
+        ca = ca + (c_alpha[k] ** 4) * numpy.asarray(site_cfs[k], dtype=complex)
+    return ca
+
+
 def dipole_correlation(t, h1, dipoles, site_cfs, rsite=None, wref=0.0, lineshape=None,
-                       extra_rates=None):
+                       extra_rates=None, site_cf_matrix=None):
     """a(t) exp(+i wref t) on the grid t (wref only keeps the phases small).
 
     site_cfs: list of sampled site energy-gap correlation functions C_k(t_n) or None (no bath).
+    site_cf_matrix: alternatively the full n x n matrix of sampled (cross-)correlation functions
+    C_kl(t_n) (takes precedence over site_cfs).
     extra_rates: optional decay rates (one per level, >= 0) multiplying level alpha by
     exp(-rate t) (e.g. the radiative rate of an isolated molecule).
     Returns (a, info)."""
@@ -103,10 +126,8 @@ def dipole_correlation(t, h1, dipoles, site_cfs, rsite=None, wref=0.0, lineshape
     a = numpy.zeros(len(t), dtype=complex)
     for al in range(len(w)):
         x = -1j * (w[al] - wref) * t
-        if site_cfs is not None:
-            ca = numpy.zeros(len(t), dtype=complex)
-            for k in range(len(w)):
-                ca = ca + (c[k, al] ** 4) * numpy.asarray(site_cfs[k], dtype=complex)
+        if site_cfs is not None or site_cf_matrix is not None:
+            ca = exciton_correlation_function(t, c[:, al], site_cfs, site_cf_matrix)
             x = x - ls(t, ca)
         if rates is not None:
             # static tensor: exp(R_aaaa t); time-dependent tensor: exp(R_aaaa(t_n) t_n)
